@@ -82,8 +82,11 @@ def make_spec(rng, keycols, nrow, extra=None):
         elif nn and all(isinstance(v, (int, float)) and not isinstance(v, bool) for v in nn):
             dtype = "float"
             vals = [None if v is None else float(v) for v in vals]
+        elif not nn and rng.random() < 0.5:
+            dtype = "null"          # an all-null key column has polars' Null dtype unless typed by hand
         else:
-            dtype = "str"
+            # the same labels as a string, categorical or enum column
+            dtype = rng.choice(["str", "str", "str", "cat", "enum"])
         cols.append({"name": f"N{j}", "dtype": dtype, "values": list(vals)})
     kj = len(cols)
     cols.append({"name": f"N{kj}", "dtype": "str", "values": [f"d{r}c{kj}" for r in range(n)]})
